@@ -100,12 +100,45 @@ def lean_strs(xs):
     return "[" + ", ".join(lean_str(x) for x in xs) + "]"
 
 
+def _eval_str(node, table):
+    """value of a constant expression denoting ONE string: a literal, a name bound to one, a concatenation, an f-string
+    or %-format of such; None otherwise"""
+    if isinstance(node, ast.Constant) and isinstance(node.value, str):
+        return node.value
+    if isinstance(node, (ast.Name, ast.Attribute)):
+        v = table.get(node.id if isinstance(node, ast.Name) else node.attr)
+        return v if isinstance(v, str) else None
+    if isinstance(node, ast.BinOp) and isinstance(node.op, ast.Add):
+        l, r = _eval_str(node.left, table), _eval_str(node.right, table)
+        return None if l is None or r is None else l + r
+    if isinstance(node, ast.BinOp) and isinstance(node.op, ast.Mod):
+        l = _eval_str(node.left, table)
+        args = node.right.elts if isinstance(node.right, ast.Tuple) else [node.right]
+        vals = [_eval_str(a, table) for a in args]
+        if l is None or any(v is None for v in vals) or l.count("%s") != len(vals) or l.count("%") != len(vals):
+            return None
+        return l % tuple(vals)
+    if isinstance(node, ast.JoinedStr):
+        parts = []
+        for v in node.values:
+            if isinstance(v, ast.Constant) and isinstance(v.value, str):
+                parts.append(v.value)
+            elif isinstance(v, ast.FormattedValue) and v.format_spec is None and v.conversion in (-1, 115):
+                x = _eval_str(v.value, table)
+                if x is None:
+                    return None
+                parts.append(x)
+            else:
+                return None
+        return "".join(parts)
+    return None
+
+
 def _eval_names(node, table):
-    """value of a constant expression denoting a sequence of strings: a tuple/list/set literal of string constants, a
-    name (or attribute) bound to one, `tuple(...)`/`frozenset(...)` of one, or a concatenation of such; None otherwise"""
+    """value of a constant expression denoting a sequence of strings: a tuple/list/set literal of constant strings
+    (each element itself a constant string expression), a name (or attribute) bound to one, `tuple(...)`/`frozenset(...)`
+    of one, or a concatenation of such; None otherwise"""
     if isinstance(node, (ast.Tuple, ast.List, ast.Set)):
-        if node.elts and all(isinstance(e, ast.Constant) and isinstance(e.value, str) for e in node.elts):
-            return [e.value for e in node.elts]
         parts = []
         for e in node.elts:
             if isinstance(e, ast.Starred):
@@ -113,15 +146,18 @@ def _eval_names(node, table):
                 if v is None:
                     return None
                 parts.extend(v)
-            elif isinstance(e, ast.Constant) and isinstance(e.value, str):
-                parts.append(e.value)
             else:
-                return None
+                x = _eval_str(e, table)
+                if x is None:
+                    return None
+                parts.append(x)
         return parts or None
     if isinstance(node, ast.Name):
-        return table.get(node.id)
+        v = table.get(node.id)
+        return v if isinstance(v, list) else None
     if isinstance(node, ast.Attribute):
-        return table.get(node.attr)
+        v = table.get(node.attr)
+        return v if isinstance(v, list) else None
     if isinstance(node, ast.BinOp) and isinstance(node.op, (ast.Add, ast.BitOr)):
         l, r = _eval_names(node.left, table), _eval_names(node.right, table)
         return None if l is None or r is None else l + r
@@ -132,14 +168,16 @@ def _eval_names(node, table):
 
 
 def _const_table(tree):
-    """module-level and class-level `NAME = <constant sequence of strings>` assignments: name -> list of strings
-    (iterated to a fixed point so that constants may be built from earlier ones)"""
+    """module-level and class-level `NAME = <constant string>` / `NAME = <constant sequence of strings>` assignments:
+    name -> str or list of strings (iterated to a fixed point so that constants may be built from earlier ones)"""
     out = {}
-    for _ in range(4):
+    for _ in range(5):
         grew = False
         for n in ast.walk(tree):
             if isinstance(n, ast.Assign):
-                v = _eval_names(n.value, out)
+                v = _eval_str(n.value, out)
+                if v is None:
+                    v = _eval_names(n.value, out)
                 if v is None:
                     continue
                 for t in n.targets:
@@ -270,21 +308,49 @@ GROUPS = {
 BASELINE = os.path.join(os.path.dirname(os.path.abspath(__file__)), "extract_baseline.json")
 
 
+PROBED = {}          # group -> True for groups whose values were read back by running the code (last collect())
+
+
+def _probe(repo):
+    """the constant groups as observed by running the package under test through its public API (harness/probe.py)"""
+    import subprocess
+    import sys
+    env = dict(os.environ, PYTHONPATH=repo)
+    try:
+        p = subprocess.run([sys.executable, os.path.join(os.path.dirname(os.path.abspath(__file__)), "probe.py")],
+                           env=env, stdout=subprocess.PIPE, stderr=subprocess.DEVNULL, timeout=120, cwd=repo)
+        return json.loads(p.stdout.decode("utf-8"))
+    except Exception:  # noqa: BLE001
+        return {}
+
+
 def collect(repo):
-    """returns (constants, failures): every group is extracted on its own; a group whose source was restructured
-    beyond what the extractor understands falls back to the recorded baseline values (so that the rest still
-    builds) and is reported as a broken tie - to the properties that read it only"""
+    """returns (constants, failures): every group is extracted on its own, first from the syntax tree; a group whose
+    source was restructured beyond what the static extractor understands is read back by RUNNING the code under test
+    (probe.py: the values the code uses, observed through the public API); only when that is impossible too does the
+    group fall back to the recorded baseline values (so that the rest still builds) and is reported as a broken tie -
+    to the properties that read it only"""
     c, failures = {}, {}
     base = None
+    probed = None
+    PROBED.clear()
     for g, (fn, _props) in GROUPS.items():
         part = {}
         try:
             fn(repo, part)
-        except Exception as e:      # noqa: BLE001 - any surprise in the source is a broken tie of this group
-            failures[g] = "%s: %s" % (type(e).__name__, e)
-            if base is None:
-                base = json.load(open(BASELINE, encoding="utf-8"))
-            part = base[g]
+        except Exception as e:      # noqa: BLE001 - any surprise in the source
+            msg = "%s: %s" % (type(e).__name__, e)
+            if probed is None:
+                probed = _probe(repo)
+            pv = probed.get(g)
+            if isinstance(pv, dict) and "error" not in pv:
+                part = pv
+                PROBED[g] = msg
+            else:
+                failures[g] = msg + ("; probe: %s" % pv["error"] if isinstance(pv, dict) and "error" in pv else "")
+                if base is None:
+                    base = json.load(open(BASELINE, encoding="utf-8"))
+                part = base[g]
             if g == "render":
                 part = dict(part, styles=[tuple(x) for x in part["styles"]])
         c.update(part)
